@@ -2,7 +2,9 @@
 
 Every schedule of the virtual pool (assignment of grid-point tasks to workers x completion order
 consistent with per-worker FIFO), for each `pool.map` call of a solve in turn; every permutation
-and non-empty subset of a 3-target list with shared and unshared segments; every permutation of
+and non-empty subset of a 3-target list with shared and unshared segments (also with an expanded scale
+variation and targets on a matching scale, where the shared segment exists as a final and as an
+intermediate part, and on downward paths); every permutation of
 the recipe list; plus a free-running conformance pass with the real multiprocessing.Pool.
 Oracle: bitwise equality of every (ep, operator, error) with the 1-core single-target run.
 """
@@ -19,7 +21,8 @@ LEVEL = "model_checking"
 TECHNIQUE = "exhaustive schedule enumeration on a virtual process pool driving the real solver + all target/recipe permutations; bitwise comparison with the sequential run"
 LEVEL_TEXT = (
     "all schedules of <=3 virtual workers on the 3 (thorough: 4) grid-point tasks of each pool.map call, all "
-    "permutations/subsets of 3 targets and all recipe orders are executed through the real eko.solve; results must be bit-identical to the 1-core single-target run"
+    "permutations/subsets of 3 targets (plain, with expanded scale variation and targets on a matching scale, downward from nf0=5) "
+    "and all recipe orders are executed through the real eko.solve; results must be bit-identical to the 1-core single-target run"
 )
 LEVEL_NOTE = (
     "virtual pool models fork+pickle semantics (task runs on a copy of the bound Operator; module state shared); real "
@@ -30,6 +33,7 @@ FLOOR_NONTRIVIAL = 20
 GRID3 = [0.2, 0.6, 1.0]
 GRID4 = [0.1, 0.3, 0.7, 1.0]
 GRIDS = {
+    2: [0.5, 1.0],
     3: GRID3,
     4: GRID4,
     5: [0.05, 0.15, 0.4, 0.7, 1.0],
@@ -38,12 +42,28 @@ GRIDS = {
 }
 T1, T2, T3 = [3.0, 4], [6.0, 5], [10.0, 5]
 T4 = [6.0, 4]  # same scale as T2, other nf
+# targets on the bottom matching scale (4.5): reached with the lower nf (the segment origin -> wall is FINAL and carries the
+# expanded scale-variation kernel) and with the upper nf (the same segment is INTERMEDIATE, followed by the matching)
+W4, W5 = [4.5, 4], [4.5, 5]
+# downward paths from init = (6.0, 5): through the inverse bottom (and charm) matching
+D1, D2 = [3.0, 4], [1.5, 3]
 CARDS = {
     "lo-ffns": dict(order=[1, 0], mugrid=[T1], method="truncated"),
     "nlo-thr": dict(order=[2, 0], mugrid=[T2], method="iterate-exact", iterations=3),
     "lo-thr": dict(order=[1, 0], mugrid=[T2], method="truncated"),
     "nlo-ffns": dict(order=[2, 0], mugrid=[T1], method="truncated"),
     "nlo-k2": dict(order=[2, 0], mugrid=[T1], method="truncated", ratios=[1.0, 2.0, 1.0]),
+    # expanded scale variation: the part origin -> wall exists in two variants (final with the sv kernel / intermediate without)
+    "lo-thr-svexp": dict(order=[1, 0], mugrid=[T2], method="truncated", sv="expanded", xif=2.0),
+    "nlo-thr-svexp": dict(order=[2, 0], mugrid=[T2], method="truncated", sv="expanded", xif=0.5),
+    "lo-thr-svexpo": dict(order=[1, 0], mugrid=[T2], method="truncated", sv="exponentiated", xif=2.0),
+    # downward evolution (inverse matching) from nf0 = 5
+    "lo-down": dict(order=[1, 0], init=[6.0, 5], mugrid=[D1], method="truncated", inversion="exact"),
+    "nlo-down": dict(order=[2, 0], init=[6.0, 5], mugrid=[D1], method="truncated", inversion="exact"),
+    "nlo-down-exp": dict(order=[2, 0], init=[6.0, 5], mugrid=[D1], method="truncated", inversion="expanded"),
+    # QED: the coupling lists are built in the parent and pickled into every task; other label set
+    "qed": dict(order=[1, 1], mugrid=[T1], method="iterate-exact", iterations=2),
+    "qed-run": dict(order=[1, 1], mugrid=[T1], method="iterate-exact", iterations=2, em_running=True),
 }
 
 _BASE = {}
@@ -73,7 +93,7 @@ def _cmp(res, sig, what, card, grid, ops):
     for ep, (op, err) in ops.items():
         tgt = [float(np.sqrt(ep[0])), ep[1]]
         # recover the target as written in the card
-        for t in (T1, T2, T3, T4, [9.0, 5]):
+        for t in (T1, T2, T3, T4, [9.0, 5], W4, W5, D1, D2):
             if abs(t[0] ** 2 - ep[0]) < 1e-9 and t[1] == ep[1]:
                 tgt = t
         bop, berr = _baseline(card, grid, tgt)
@@ -192,6 +212,26 @@ def run(ctx):
         for r in (2, 3):
             for sub in itertools.permutations([T1, T2, T3], r):
                 cases.append(dict(kind="targets", card="nlo-thr", mugrid=[list(t) for t in sub]))
+    # expanded scale variation and targets ON a matching scale: the segment origin -> wall is the final part of W4 (with the
+    # scale-variation kernel) and an intermediate part of T2 / W5 (without): two parts whose headers differ only in `cliff`
+    # must coexist, whatever the order of the list; all permutations of all non-empty subsets
+    for r in (1, 2, 3):
+        for sub in itertools.permutations([W4, T2, W5], r):
+            cases.append(dict(kind="targets", card="lo-thr-svexp", mugrid=[list(t) for t in sub]))
+    if thorough:
+        for svcard in ("nlo-thr-svexp", "lo-thr-svexpo"):
+            for r in (2, 3):
+                for sub in itertools.permutations([W4, T2, W5], r):
+                    cases.append(dict(kind="targets", card=svcard, mugrid=[list(t) for t in sub]))
+    # downward paths (inverse matching) from init = (6.0, 5), together with an upward target
+    for sub in itertools.permutations([D1, D2, T3], 2):
+        cases.append(dict(kind="targets", card="lo-down", mugrid=[list(t) for t in sub]))
+    if thorough:
+        for sub in itertools.permutations([D1, D2, T3], 3):
+            cases.append(dict(kind="targets", card="lo-down", mugrid=[list(t) for t in sub]))
+        for dcard in ("nlo-down", "nlo-down-exp"):
+            for sub in itertools.permutations([D1, D2, T3], 2):
+                cases.append(dict(kind="targets", card=dcard, mugrid=[list(t) for t in sub]))
     # recipe order
     mg = [T2, T3] if not thorough else [T1, T2, T3]
     nrec = n_recipes(tcard, mg)
@@ -204,6 +244,14 @@ def run(ctx):
             cases.append(dict(kind="vdefault", card="lo-ffns", grid=g, cores=cores))
     for g, cores in ((5, 2), (8, 3), (7, 4)) + (((7, 2), (8, 5), (5, 3)) if thorough else ()):
         cases.append(dict(kind="realpool", card="lo-ffns", grid=g, cores=cores))
+    # n_integration_cores = 0 (all cores) and <= -cpu_count (clamped to the sequential path)
+    for cores in (0, -64):
+        cases.append(dict(kind="realpool", card="lo-ffns", cores=cores))
+    if thorough:
+        # QED cards (2-point grid): virtual pool with its default schedule and the real pool
+        for qcard in ("qed", "qed-run"):
+            cases.append(dict(kind="vdefault", card=qcard, grid=2, cores=2))
+            cases.append(dict(kind="realpool", card=qcard, grid=2, cores=2))
     # free-running conformance of the virtual pool
     for card in (["lo-ffns", "lo-thr"] if not thorough else list(CARDS)):
         for cores in (2, 3, -13):
@@ -225,11 +273,17 @@ def run(ctx):
     ctx.rule = (
         "schedules: for every pool.map call of each card, all assignments of the grid-point tasks to "
         f"{worker_counts} virtual workers (modulo worker renaming) x all completion orders consistent with per-worker FIFO, "
-        "other calls on the default schedule; targets: all permutations of all non-empty subsets of 3 targets; recipes: all "
-        "permutations of the recipe list; grids of 5, 7, 8 points on 2-4 workers (sizes that are not multiples of the worker count); real pool with cores in {2,3,-13}; non-trivial = completion order differs from "
+        "other calls on the default schedule; targets: all permutations of all non-empty subsets of 3 targets, again with an "
+        "expanded scale variation (xif=2) for the targets (4.5,4), (6,5), (4.5,5) on / above the bottom matching scale"
+        f"{' (thorough: also NLO xif=0.5 and exponentiated)' if thorough else ''}, all ordered pairs"
+        f"{' and triples' if thorough else ''} of two downward and one upward target from init=(6,5)"
+        f"{' (thorough: also NLO, exact and expanded inversion)' if thorough else ''}; recipes: all "
+        "permutations of the recipe list; grids of 5, 7, 8 points on 2-4 workers (sizes that are not multiples of the worker count); "
+        f"real pool with cores in {{2,3,-13,0,-64}}{'; QED cards (em running off/on) on the virtual and the real pool' if thorough else ''}; non-trivial = completion order differs from "
         "submission order or a worker ran >= 2 tasks, >= 2 targets, or a non-identity permutation"
     )
     ctx.assumptions += [
         "one pool.map call per part on a fresh Operator: calls share no state (schedules enumerated one call at a time)",
         "traces_validated_against_impl counts the free-running runs with the real multiprocessing.Pool",
+        "n_integration_cores=0 means all cores of this host, -64 is clamped to one core (sequential path, no pool) on any host with <= 64 cores",
     ]
